@@ -129,6 +129,10 @@ def _lag_rounding(ctx, fs_):
               "product is a multiple of 100 (e.g. p=29, len=100) the quotient lands just below the integer and lag is one too small")
 
 
+def _real_signals(fn, args):
+    return {"numpy.iscomplexobj": False, "numpy.isrealobj": True}.get(fn)
+
+
 def run(ctx):
     pkg = ctx.pkg
     fi = pkg.func("devices.ADC")
@@ -137,7 +141,8 @@ def run(ctx):
         x = S("input.signal") + (S("input.noise") if noise == "notnone" else 0)
         for ot in ("n", "v"):
             case = f"otype='{ot}', noise {noise}"
-            it = Interp(pkg, param_classes={"input": "electrical_signal"}, assumptions={"input.noise": noise, "fs": None, "otype": ot}, no_inline=("shortest_int",))
+            it = Interp(pkg, param_classes={"input": "electrical_signal"}, assumptions={"input.noise": noise, "fs": None, "otype": ot, "n": ("inst", "int")}, no_inline=("shortest_int",))
+            it.domain_pred = _real_signals           # "for all real signals", n an integer number of bits
             it.keep_astype = True      # a cast between rounding and clamping matters (wrap-around of out-of-range codes)
             it.domain_sign = _range_has_width      # the statement is about signals whose 99.99% range has positive width
             outs = it.run(fi)
